@@ -60,7 +60,7 @@ def run(ctx):
         c11._ctor_presorted(ctx, sub, ti, init)
         n += 1
     for o in sub.obligations:
-        rep.add('R9.1', (o.module, o.qualname), o.construct, o.status, o.message, None, o.detail)
+        rep.add('R9.1', (o.module, o.qualname), o.construct, o.status, o.message, o.lineno, o.detail)
     for vfq, (ifq, filt_ok) in GROUPING.items():
         ci = ctx.project.need_class(vfq)
         it = ctx.project.need_fn(ifq)
